@@ -64,6 +64,20 @@ def suffix4(s):
     return None
 
 
+def show(v):
+    """abstract value, compact"""
+    if v[0] == "array":
+        xs = [show(x) for x in v[1]]
+        return "[%s]" % (", ".join(xs) if len(xs) <= 6 else ", ".join(xs[:3]) + ", .. " + xs[-1])
+    if v[0] == "sym":
+        return v[1]
+    if v[0] == "be":
+        return "be(%s)" % ", ".join(show(x) for x in v[1])
+    if v[0] == "int":
+        return str(v[1])
+    return str(v)[:80]
+
+
 def count_nodes(s, node):
     return len(occurrences(s, lambda x: x == node))
 
@@ -74,8 +88,8 @@ def run(tier, repo):
     F = Facts(facts, info)
     rp.configs.append("default")
     rp.rule("ACCESSOR-IDENTITY", "each ClientHello accessor of both impls returns the same-named field of self")
-    rp.rule("RAND-TIME", "rand_time = u32::from_be_bytes of a 4-byte prefix of random(); every use of random() is under that prefix; fallback 0")
-    rp.rule("RAND-BYTES", "rand_bytes = random()[4..] (checked get); every use of random() is under that suffix; fallback empty")
+    rp.rule("RAND-TIME", "rand_time, evaluated abstractly on a symbolic random r of each length in {0..5, 8, 28, 31, 32, 33, 64}: big-endian combination of r0..r3 when len >= 4, else 0")
+    rp.rule("RAND-BYTES", "rand_bytes, evaluated the same way: r[4..] when len >= 4, else the empty slice")
     rp.rule("CIPHER-MAP", "cipher_suites/get_ciphers map each advertised id, in order, through the registry lookup; get_cipher looks up self.cipher")
     rp.rule("CTOR-STORE", "new() stores every argument unchanged in its field (version/cipher/compression wrapped in their newtypes)")
     rp.rule("GETTERS", "get_version returns self.version")
@@ -91,31 +105,35 @@ def run(tier, repo):
             n_acc += 1
             rp.check(s == fld(P("self"), m), "ACCESSOR-IDENTITY", key, site(fs[0]), "accessor %s() does not return self.%s" % (m, m), expected="self." + m, found=sym_str(s), why_ok="returns self." + m)
     rp.floor("accessors", n_acc, 12)
-    # trait default methods
-    rc = ["mcall", RANDOM_CALL, [P("self")]]
+    # trait default methods: evaluated by the checker's abstract evaluator on a symbolic random of each length
+    # (bytes r0, r1, ... are opaque atoms), for every way the body may be written that the evaluator can read
+    from ..aeval import AEval, Unknown
+    LENGTHS = [0, 1, 2, 3, 4, 5, 8, 28, 31, 32, 33, 64]
+    def run_on(fn_path, n):
+        rnd = ("array", [("sym", "r%d" % i) for i in range(n)])
+        return AEval(F).call_fn(fn_path, [("obj", {"random": rnd})]), rnd
     f = F.fn("tls_handshake::ClientHello::rand_time")
     if rp.check(f is not None, "RAND-TIME", "present", "src/tls_handshake.rs", "ClientHello::rand_time not found"):
-        s = body_sym(F, f)
-        txt = json.dumps(s)
-        n_rand = count_nodes(s, rc)
-        pref = occurrences(s, lambda x: prefix4(x) == rc)
-        n_under = sum(count_nodes(p_, rc) for p_ in pref)
-        rp.check(n_rand >= 1 and n_under == n_rand, "RAND-TIME", "prefix", site(f), "random() is used outside a 4-byte prefix (converting the whole 32-byte random to [u8; 4] can never succeed)", expected="every use of random() under get(..4)",
-                 found=sym_str(s)[:300], why_ok="%d use(s) of random(), all under a 4-byte prefix" % n_rand)
-        rp.check("from_be_bytes" in txt and "from_le_bytes" not in txt and "from_ne_bytes" not in txt, "RAND-TIME", "big-endian", site(f), "the 4 bytes are not combined big-endian", found=sym_str(s)[:300])
-        # no arithmetic on the result, fallback 0
-        rp.check(s[0] == "mcall" and s[1].endswith("unwrap_or") and s[2][1] == N(0) or s[0] == "ifv", "RAND-TIME", "fallback", site(f), "fallback for short randoms is not 0", found=sym_str(s)[:200])
-        rp.check('"op"' not in txt and "swap_bytes" not in txt and "rotate" not in txt and "to_be" not in txt.replace("from_be_bytes", ""), "RAND-TIME", "no-postprocessing", site(f), "the value is post-processed after from_be_bytes", found=sym_str(s)[:300])
+        for n in LENGTHS:
+            try:
+                got, rnd = run_on(f["path"], n)
+            except Unknown as u:
+                rp.fail("RAND-TIME", "unreadable", site(f), "rand_time cannot be evaluated for a %d-byte random: %s" % (n, u))
+                break
+            want = ("be", rnd[1][:4]) if n >= 4 else ("int", 0)
+            rp.check(got == want, "RAND-TIME", "len-%d" % n, site(f), "rand_time of a %d-byte random is %s; expected %s" % (n, show(got), show(want)), expected=show(want), found=show(got),
+                     why_ok="= " + show(want))
     f = F.fn("tls_handshake::ClientHello::rand_bytes")
     if rp.check(f is not None, "RAND-BYTES", "present", "src/tls_handshake.rs", "ClientHello::rand_bytes not found"):
-        s = body_sym(F, f)
-        n_rand = count_nodes(s, rc)
-        suf = occurrences(s, lambda x: suffix4(x) == rc)
-        n_under = sum(count_nodes(p_, rc) for p_ in suf)
-        rp.check(n_rand >= 1 and n_under == n_rand, "RAND-BYTES", "suffix", site(f), "rand_bytes is not the part of random() after the first four bytes", expected="random().get(4..)", found=sym_str(s)[:300],
-                 why_ok="random()[4..]")
-        ok_shape = s[0] == "mcall" and s[1].endswith("unwrap_or") and suffix4(s[2][0]) == rc and s[2][1] == ["bytes_lit", []]
-        rp.check(ok_shape or (suffix4(s) == rc), "RAND-BYTES", "whole", site(f), "rand_bytes is not exactly `random().get(4..).unwrap_or(&[])`", found=sym_str(s)[:300])
+        for n in LENGTHS:
+            try:
+                got, rnd = run_on(f["path"], n)
+            except Unknown as u:
+                rp.fail("RAND-BYTES", "unreadable", site(f), "rand_bytes cannot be evaluated for a %d-byte random: %s" % (n, u))
+                break
+            want = ("array", rnd[1][4:]) if n >= 4 else ("array", [])
+            rp.check(got == want, "RAND-BYTES", "len-%d" % n, site(f), "rand_bytes of a %d-byte random is %s; expected %s" % (n, show(got), show(want)), expected=show(want), found=show(got),
+                     why_ok="= " + show(want))
     # cipher maps
     def is_lookup(s, idsym):
         """registry lookup of the id `idsym` (a TlsCipherSuiteID value), at any inlining depth"""
